@@ -467,3 +467,540 @@ func (p *Program) mentionsConst(fn *ssa.Function, name string) bool {
 	}
 	return false
 }
+
+// =============================================================================================
+// batch 2
+
+func init() {
+	stc := "a working copy taken with DeepCopy() before the original is refreshed in place (Get / Create / Update / Patch decode into it) is not mutated, written or handed on afterwards"
+	addRule("C02", Rule{ID: "C02.R8", Min: 1, Statement: stc, Run: staleCopyRule})
+	addRule("C01", Rule{ID: "C01.R10", Min: 1, Statement: stc, Run: staleCopyRule})
+	scf := "the ObjectSetPhase controller acts (teardown, finalizer, reconcile, status) only on phases of its own class: the class test precedes every effect"
+	addRule("C04", Rule{ID: "C04.R10", Min: 3, Statement: scf, Run: classFilterFirstRule})
+	addRule("C15", Rule{ID: "C15.R12", Min: 3, Statement: scf, Run: classFilterFirstRule})
+	addRule("C10", Rule{ID: "C10.R9", Min: 5, Statement: "a function whose returned error is classified by a caller (IsNotFound, errors.Is/As, …) wraps the errors it passes on with %w", Run: errorClassPreservedRule})
+	sse := "the environment sink's shared state is modified only by its setter: nothing is stored through the shared pointer"
+	addRule("C13", Rule{ID: "C13.R15", Min: 1, Statement: sse, Run: sinkSharedStateRule})
+	addRule("C18", Rule{ID: "C18.R10", Min: 1, Statement: sse, Run: sinkSharedStateRule})
+	addRule("C17", Rule{ID: "C17.R10", Min: 1, Statement: "the condition probe judges only the condition of the probed type: every verdict that depends on a condition's content is taken after the type test", Run: conditionTypeFilterFirstRule})
+}
+
+// ---------------------------------------------------------------------------------------------
+// C02.R8 / C01.R10
+
+func staleCopyRule(c *Ctx) {
+	p := c.P
+	n := 0
+	for _, fn := range p.FuncsUnder(pkgControllers) {
+		type refresh struct {
+			in  ssa.Instruction
+			key string
+		}
+		var refreshes []refresh
+		for _, b := range fn.Blocks {
+			for _, in := range b.Instrs {
+				if obj := p.refreshedObject(in); obj != nil {
+					refreshes = append(refreshes, refresh{in, p.objectRootKey(obj)})
+				}
+			}
+		}
+		for _, call := range callsIn(fn) {
+			cp, ok := call.Instr.(*ssa.Call)
+			if !ok {
+				continue
+			}
+			if nm := calleeName(call.Common); nm != "DeepCopy" && nm != "DeepCopyObject" {
+				continue
+			}
+			recv := callRecv(call.Common)
+			if recv == nil {
+				continue
+			}
+			n++
+			rk := p.objectRootKey(recv)
+			var bad []string
+			for _, rf := range refreshes {
+				if rf.key != rk || rf.in == ssa.Instruction(cp) || !canPrecede(cp, rf.in) {
+					continue
+				}
+				after := map[ssa.Instruction]bool{}
+				for _, in := range reachableAfter(rf.in, nil) {
+					after[in] = true
+				}
+				for _, use := range transitiveUses(cp, 4) {
+					if !after[use] || use == rf.in {
+						continue
+					}
+					ci, isCall := use.(ssa.CallInstruction)
+					if !isCall {
+						continue
+					}
+					cc := ci.Common()
+					id := calleeID(cc)
+					if strings.HasPrefix(id, "builtin:") || strings.Contains(id, "DeepEqual") || strings.Contains(id, ".MergeFrom") || strings.Contains(id, ".StrategicMergeFrom") ||
+						strings.HasPrefix(id, "fmt.") || strings.Contains(id, "logr.") {
+						continue // comparison / patch base / message: a snapshot of the old state is the point
+					}
+					name := calleeName(cc)
+					if isAccessorName(name) && !strings.HasPrefix(name, "Set") {
+						continue
+					}
+					bad = append(bad, "used by "+shortPkg(id)+" at "+p.IPos(use)+" after "+p.IPos(rf.in)+" refreshed the original")
+				}
+			}
+			if len(bad) == 0 {
+				continue // nothing to decide for copies that are not followed by a refresh
+			}
+			sort.Strings(bad)
+			c.Ob(fn, "copy-before-refresh", cp, c.rule.Statement).Fail("the copy made at %s is %s: it still describes what was in the variable before the read (the desired object with the owner's controller reference already set, or an older version) — ownership tests and patches computed from it are wrong on exactly the paths where the refresh mattered", p.IPos(cp), strings.Join(dedupStrings(bad), "; "))
+		}
+	}
+	o := c.Ob(nil, "copies-scanned", nil, c.rule.Statement)
+	if n < 5 {
+		o.Fail("reason=anchor-lost: only %d DeepCopy calls seen in %s", n, pkgControllers)
+	} else {
+		o.OK()
+	}
+}
+
+// ---------------------------------------------------------------------------------------------
+// C04.R10 / C15.R12
+
+func classFilterFirstRule(c *Ctx) {
+	p := c.P
+	n := 0
+	for _, fn := range p.FuncsIn(pkgObjSetPhases) {
+		if fn.Parent() != nil {
+			continue
+		}
+		// the class test: GetClass() ==/!= <field class of the receiver>
+		var test *ssa.BinOp
+		for _, b := range fn.Blocks {
+			for _, in := range b.Instrs {
+				bo, ok := in.(*ssa.BinOp)
+				if !ok || (bo.Op != token.EQL && bo.Op != token.NEQ) {
+					continue
+				}
+				for _, pair := range [][2]ssa.Value{{bo.X, bo.Y}, {bo.Y, bo.X}} {
+					g, _ := asCall(pair[0])
+					if g == nil || calleeName(g.Common()) != "GetClass" {
+						continue
+					}
+					if ld, ok := stripConv(pair[1]).(*ssa.UnOp); ok && ld.Op == token.MUL {
+						if fa, ok := ld.X.(*ssa.FieldAddr); ok && fieldName(fa.X.Type(), fa.Field) == "class" {
+							test = bo
+						}
+					}
+				}
+			}
+		}
+		if test == nil {
+			continue
+		}
+		for _, call := range callsIn(fn) {
+			if _, isDefer := call.Instr.(*ssa.Defer); isDefer {
+				continue
+			}
+			callee := staticCallee(call.Common)
+			effect := false
+			if _, ok := classifyWriter(call); ok {
+				effect = true
+			}
+			if callee != nil && strings.HasPrefix(funcPkgPath(callee), modPKO) && !isAccessorName(callee.Name()) && callee.Signature.Recv() != nil &&
+				namedTypeString(callee.Signature.Recv().Type()) == namedTypeString(fn.Signature.Recv().Type()) {
+				effect = true // a method of the controller itself
+			}
+			if callee != nil && funcPkgPath(callee) == pkgControllers && !isAccessorName(callee.Name()) {
+				effect = true // shared controller helpers (finalizer handling, status from error, …)
+			}
+			if call.Common.IsInvoke() && (call.Common.Method.Name() == "Reconcile" || call.Common.Method.Name() == "Teardown") {
+				effect = true
+			}
+			if !effect {
+				continue
+			}
+			n++
+			o := c.Ob(fn, "own-class-only:"+calleeName(call.Common), call.Instr, c.rule.Statement)
+			ok := false
+			for _, f := range p.FactsAt(call.Instr.Block()) {
+				if f.Cond == ssa.Value(test) && f.Pol == (test.Op == token.EQL) {
+					ok = true
+				}
+			}
+			if ok {
+				o.OK()
+			} else {
+				o.Fail("%s runs before (or without) the test that the ObjectSetPhase is of this controller's class: a controller of another class tears down / finalizes phases it cannot see the objects of, reports the clean-up done and removes the finalizer the responsible controller relies on", calleeName(call.Common))
+			}
+		}
+	}
+	if n == 0 {
+		c.AnchorLost("class test in the Reconcile of " + pkgObjSetPhases)
+	}
+}
+
+// ---------------------------------------------------------------------------------------------
+// C10.R9
+
+func isErrorType(t types.Type) bool {
+	if t == nil {
+		return false
+	}
+	errIface := types.Universe.Lookup("error").Type().Underlying().(*types.Interface)
+	return types.Implements(t, errIface)
+}
+
+// errorPredicate: the call classifies its error argument (returns the index of that argument, or -1).
+func errorPredicate(cc *ssa.CallCommon) int {
+	id := calleeID(cc)
+	switch {
+	case id == "errors.Is" || id == "errors.As":
+		return 0
+	case strings.HasPrefix(id, "k8s.io/apimachinery/pkg/api/errors.Is") || id == "k8s.io/apimachinery/pkg/api/errors.ReasonForError":
+		return 0
+	case id == "sigs.k8s.io/controller-runtime/pkg/client.IgnoreNotFound" || id == "sigs.k8s.io/controller-runtime/pkg/client.IgnoreAlreadyExists":
+		return 0
+	}
+	if callee := staticCallee(cc); callee != nil && strings.HasPrefix(funcPkgPath(callee), modPKO) && callee.Signature.Recv() == nil {
+		sig := callee.Signature
+		if sig.Params().Len() == 1 && sig.Results().Len() == 1 && namedTypeString(sig.Params().At(0).Type()) == "error" {
+			if b, ok := sig.Results().At(0).Type().Underlying().(*types.Basic); ok && b.Kind() == types.Bool {
+				return 0
+			}
+		}
+	}
+	return -1
+}
+
+// errorProducers: module functions (with bodies) whose error result may be the value v.
+func (p *Program) errorProducers(v ssa.Value) []*ssa.Function {
+	var out []*ssa.Function
+	for _, pv := range p.possibleValues(v) {
+		call, _ := asCall(pv)
+		if call == nil {
+			continue
+		}
+		id := calleeID(call.Common())
+		if id == "fmt.Errorf" {
+			// wrapped with %w: the class of the wrapped operand is what the caller tests
+			if elems, ok := sliceElems(call.Common().Args[1]); ok {
+				for _, e := range elems {
+					if isErrorType(stripConv(e).Type()) {
+						out = append(out, p.errorProducers(stripConv(e))...)
+					}
+				}
+			}
+			continue
+		}
+		if callee := staticCallee(call.Common()); callee != nil && len(callee.Blocks) > 0 && strings.HasPrefix(funcPkgPath(callee), modPKO) {
+			out = append(out, callee)
+		}
+	}
+	return out
+}
+
+func errorClassPreservedRule(c *Ctx) {
+	p := c.P
+	tested := map[*ssa.Function]string{}
+	for _, fn := range p.productFuncs() {
+		for _, call := range callsIn(fn) {
+			idx := errorPredicate(call.Common)
+			if idx < 0 || idx >= len(call.Common.Args) {
+				continue
+			}
+			for _, prod := range p.errorProducers(call.Common.Args[idx]) {
+				if _, ok := tested[prod]; !ok {
+					tested[prod] = shortPkg(calleeID(call.Common)) + " in " + shortFuncID(fn)
+				}
+			}
+		}
+	}
+	// what a tested function passes on from its callees is tested as well
+	for round := 0; round < 3; round++ {
+		var add []*ssa.Function
+		why := map[*ssa.Function]string{}
+		for fn, w := range tested {
+			ei := errResultIndex(fn)
+			if ei < 0 {
+				continue
+			}
+			for _, b := range fn.Blocks {
+				ret, ok := b.Instrs[len(b.Instrs)-1].(*ssa.Return)
+				if !ok || ei >= len(ret.Results) {
+					continue
+				}
+				for _, prod := range p.errorProducers(ret.Results[ei]) {
+					if _, ok := tested[prod]; !ok {
+						add = append(add, prod)
+						why[prod] = w + " (through " + shortFuncID(fn) + ")"
+					}
+				}
+			}
+		}
+		if len(add) == 0 {
+			break
+		}
+		for _, f := range add {
+			tested[f] = why[f]
+		}
+	}
+	var fns []*ssa.Function
+	for fn := range tested {
+		fns = append(fns, fn)
+	}
+	sort.Slice(fns, func(i, j int) bool { return funcID(fns[i]) < funcID(fns[j]) })
+	n := 0
+	for _, fn := range fns {
+		for _, call := range callsIn(fn) {
+			if calleeID(call.Common) != "fmt.Errorf" || len(call.Common.Args) != 2 {
+				continue
+			}
+			elems, ok := sliceElems(call.Common.Args[1])
+			if !ok {
+				continue
+			}
+			hasErr := false
+			for _, e := range elems {
+				if isErrorType(stripConv(e).Type()) {
+					hasErr = true
+				}
+			}
+			if !hasErr {
+				continue
+			}
+			n++
+			o := c.Ob(fn, "wraps-with-%w", call.Instr, c.rule.Statement)
+			format, isConst := constString(call.Common.Args[0])
+			if !isConst {
+				o.Unknown("the format string is not a constant")
+				continue
+			}
+			verbs, okv := formatVerbs(format)
+			if !okv || len(verbs) != len(elems) {
+				o.Unknown("cannot match the verbs of %q with its %d operands", format, len(elems))
+				continue
+			}
+			var bad []string
+			for i, e := range elems {
+				if isErrorType(stripConv(e).Type()) && verbs[i] != 'w' {
+					bad = append(bad, "%"+string(verbs[i])+" for "+p.describe(stripConv(e)))
+				}
+			}
+			if len(bad) == 0 {
+				o.OK()
+			} else {
+				o.Fail("the error is formatted with %s instead of %%w, so its class is lost; the result of %s is classified by %s — that test can no longer see it (a missing object becomes a hard failure, a retryable condition a permanent one)", strings.Join(bad, ", "), shortFuncID(fn), tested[fn])
+			}
+		}
+	}
+	if n == 0 {
+		c.AnchorLost("fmt.Errorf calls in functions whose error is classified by a caller")
+	}
+}
+
+// formatVerbs returns the verb letters of a Printf format, one per operand (no explicit argument
+// indexes, no '*' widths — ok=false then).
+func formatVerbs(f string) ([]byte, bool) {
+	var out []byte
+	for i := 0; i < len(f); i++ {
+		if f[i] != '%' {
+			continue
+		}
+		i++
+		for i < len(f) && strings.ContainsRune("+-# 0123456789.", rune(f[i])) {
+			i++
+		}
+		if i >= len(f) {
+			return nil, false
+		}
+		switch f[i] {
+		case '%':
+			continue
+		case '[', '*':
+			return nil, false
+		}
+		out = append(out, f[i])
+	}
+	return out, true
+}
+
+// ---------------------------------------------------------------------------------------------
+// C13.R15 / C18.R10
+
+const pkgEnvironment = modPKO + "/internal/environment"
+
+func sinkSharedStateRule(c *Ctx) {
+	p := c.P
+	n := 0
+	for _, fn := range p.FuncsIn(pkgEnvironment) {
+		root := fn
+		for root.Parent() != nil {
+			root = root.Parent()
+		}
+		if root.Signature.Recv() == nil || !strings.HasSuffix(namedTypeString(root.Signature.Recv().Type()), ".Sink") {
+			continue
+		}
+		n++
+		o := c.Ob(fn, "shared-env-not-written", nil, c.rule.Statement)
+		var bad []string
+		for _, b := range fn.Blocks {
+			for _, in := range b.Instrs {
+				st, ok := in.(*ssa.Store)
+				if !ok {
+					continue
+				}
+				if p.throughSharedEnv(st.Addr, 0) {
+					bad = append(bad, p.IPos(st))
+				}
+			}
+		}
+		if len(bad) > 0 {
+			sort.Strings(bad)
+			o.Fail("the store at %s goes through the pointer held in Sink.env (not through a copy): what is looked up for one namespace (the HostedCluster) is recorded in the long-lived shared state and shows up in the render context of every other Package — an unchanged Package renders differently", strings.Join(bad, ", "))
+		} else {
+			o.OK()
+		}
+	}
+	if n == 0 {
+		c.AnchorLost("methods of environment.Sink")
+	}
+}
+
+// throughSharedEnv: the address is reached by dereferencing the pointer loaded from Sink.env.
+func (p *Program) throughSharedEnv(addr ssa.Value, d int) bool {
+	if d > 10 {
+		return false
+	}
+	switch x := addr.(type) {
+	case *ssa.FieldAddr:
+		// &(<X>).f : X is a pointer; is X the shared pointer, or itself reached through it?
+		return p.isSharedEnvPointer(x.X, d+1) || p.throughSharedEnv(x.X, d+1)
+	case *ssa.IndexAddr:
+		return p.isSharedEnvPointer(x.X, d+1) || p.throughSharedEnv(x.X, d+1)
+	case *ssa.UnOp:
+		if x.Op == token.MUL {
+			// a pointer loaded from memory that is itself reached through the shared pointer
+			return p.throughSharedEnv(x.X, d+1)
+		}
+	case *ssa.Phi:
+		for _, e := range x.Edges {
+			if p.throughSharedEnv(e, d+1) {
+				return true
+			}
+		}
+	}
+	return false
+}
+
+func (p *Program) isSharedEnvPointer(v ssa.Value, d int) bool {
+	if d > 10 {
+		return false
+	}
+	for _, pv := range p.possibleValues(v) {
+		ld, ok := stripConv(pv).(*ssa.UnOp)
+		if !ok || ld.Op != token.MUL {
+			continue
+		}
+		if fa, ok := ld.X.(*ssa.FieldAddr); ok && strings.HasSuffix(namedTypeString(fa.X.Type()), ".Sink") && fieldName(fa.X.Type(), fa.Field) == "env" {
+			return true
+		}
+	}
+	return false
+}
+
+// ---------------------------------------------------------------------------------------------
+// C17.R10
+
+func conditionTypeFilterFirstRule(c *Ctx) {
+	p := c.P
+	n := 0
+	for _, fn := range p.FuncsIn(pkgProbing) {
+		root := fn
+		for root.Parent() != nil {
+			root = root.Parent()
+		}
+		if root.Signature.Recv() == nil || !strings.HasSuffix(namedTypeString(root.Signature.Recv().Type()), ".ConditionProbe") {
+			continue
+		}
+		// the type test: <cond>["type"] ==/!= <probe>.Type
+		var test *ssa.BinOp
+		var condMap ssa.Value
+		for _, b := range fn.Blocks {
+			for _, in := range b.Instrs {
+				bo, ok := in.(*ssa.BinOp)
+				if !ok || (bo.Op != token.EQL && bo.Op != token.NEQ) {
+					continue
+				}
+				for _, side := range []ssa.Value{bo.X, bo.Y} {
+					if lk, ok := stripConv(side).(*ssa.Lookup); ok {
+						if k, isConst := constString(lk.Index); isConst && k == "type" {
+							test, condMap = bo, lk.X
+						}
+					}
+				}
+			}
+		}
+		if test == nil {
+			continue
+		}
+		n++
+		o := c.Ob(fn, "type-test-first", test, c.rule.Statement)
+		var bad []string
+		for _, rc := range p.returnCases(fn) {
+			dep := false
+			for _, f := range rc.Facts {
+				if f.Cond != ssa.Value(test) && dependsOnValue(f.Cond, condMap, 10) {
+					dep = true
+				}
+			}
+			if !dep {
+				continue
+			}
+			okf := false
+			for _, f := range rc.Facts {
+				if f.Cond == ssa.Value(test) && f.Pol == (test.Op == token.EQL) {
+					okf = true
+				}
+			}
+			if !okf {
+				bad = append(bad, p.IPos(rc.Ret))
+			}
+		}
+		if len(bad) > 0 {
+			sort.Strings(bad)
+			o.Fail("the return at %s is decided by the content of a condition that was not yet matched against the probed type: a stale or odd condition of another type listed first fails (or passes) the probe", strings.Join(dedupStrings(bad), ", "))
+		} else {
+			o.OK()
+		}
+	}
+	if n == 0 {
+		c.AnchorLost("type test of ConditionProbe in " + pkgProbing)
+	}
+}
+
+// dependsOnValue: v is computed from target (operands, bounded depth).
+func dependsOnValue(v, target ssa.Value, depth int) bool {
+	seen := map[ssa.Value]bool{}
+	var walk func(v ssa.Value, d int) bool
+	walk = func(v ssa.Value, d int) bool {
+		if v == nil || d > depth || seen[v] {
+			return false
+		}
+		seen[v] = true
+		if v == target {
+			return true
+		}
+		in, ok := v.(ssa.Instruction)
+		if !ok {
+			return false
+		}
+		var ops []*ssa.Value
+		for _, o := range in.Operands(ops) {
+			if *o != nil && walk(*o, d+1) {
+				return true
+			}
+		}
+		return false
+	}
+	return walk(v, 0)
+}
